@@ -731,6 +731,33 @@ def include_worker(cases, wid, extra):
                 if got != cfg["reads"][f]:
                     res["fails"].append(dict(basef, what="file %s was opened %d time(s); the specification reads it %d time(s)"
                                              % (f, got, cfg["reads"][f])))
+            # the C++ back-ends' include lines: every generated source must compile next to its siblings
+            reach = set(x for f in cfg["mains"] for x in closure(cfg, f))
+            if ci % extra.get("cpp_every", 4) == 0 and reach <= set(cfg["mains"]) and not {"A", "A2"} <= reach:
+                # (an included file's header exists only if that file is compiled too; the
+                # generated include lines name files by base name, so A and A2 cannot coexist)
+                from . import cppleg as C
+                outc = os.path.join(root, "outc")
+                os.makedirs(outc)
+                os.chdir(os.path.join(root, "d0"))
+                try:
+                    stc, infoc, _ = CL.run_main([os.path.relpath(paths[f]) for f in cfg["mains"]] + idirs +
+                                                ["--cpp_out", outc, "--cpp_full_out", outc])
+                finally:
+                    os.chdir(old)
+                res["n_cpp"] = res.get("n_cpp", 0) + 1
+                if stc != "ok":
+                    res["fails"].append(dict(basef, what="prophyc with the C++ back-ends failed on a well-formed multi-file "
+                                                         "schema: %s" % (infoc,)))
+                else:
+                    for f in cfg["mains"]:
+                        stem = os.path.splitext(os.path.basename(paths[f]))[0]
+                        for srcf, comp in ((stem + ".ppf.cpp", "clang++-14"), (stem + ".pp.cpp", "g++")):
+                            rc, outp = C.run_cmd([comp, "-std=c++11", "-fsyntax-only", "-I", C.INCLUDE, "-I", outc, srcf], outc)
+                            if rc != 0:
+                                line = next((ln for ln in outp.splitlines() if "error" in ln), outp[-300:])
+                                res["fails"].append(dict(basef, what="generated %s of a multi-file schema does not compile: %s"
+                                                         % (srcf, line[:300])))
             # every main file against the single-file concatenation of what it can see
             for f in cfg["mains"]:
                 text1 = single_file_text(cfg, f)
@@ -811,6 +838,7 @@ def c16(tier, replay):
         rep.validated(r["n"])
         nt += r["nontrivial"]
         rep.cov["configs_ok"] = rep.cov.get("configs_ok", 0) + r["n_ok"]
+        rep.cov["configs_cpp_compiled"] = rep.cov.get("configs_cpp_compiled", 0) + r.get("n_cpp", 0)
         rep.cov["configs_with_diagnostic"] = rep.cov.get("configs_with_diagnostic", 0) + r["n_diag"]
         for s in r["samples"]:
             rep.sample(s)
@@ -915,7 +943,9 @@ def independent_worker(seeds, wid, extra):
             root = os.path.join(base, "p%d" % sd)
             os.makedirs(root)
             texts = {}
-            for name in ("f1", "f2", "f3"):
+            # base names that are no identifiers are legal file names too
+            fnames = ("f1", "f2", "f3") if sd % 3 else ("f-1", "f2", "f.3")
+            for name in fnames:
                 while True:
                     env = S.Env(gen.gen_env(rnd) if sd % 2 else gen.gen_env_roles(rnd))
                     if cpp_full_accepts(env):
@@ -945,7 +975,8 @@ def independent_worker(seeds, wid, extra):
             res["n"] += 1
             if not ok:
                 continue
-            for k, order in enumerate((["f1", "f2", "f3"], ["f3", "f2", "f1"], ["f2", "f1"], ["f2", "f3", "f1"])):
+            a, b, c = fnames
+            for k, order in enumerate(([a, b, c], [c, b, a], [b, a], [b, c, a])):
                 rc, text, snap = run(order, str(k), "t%d" % k)
                 if rc != 0:
                     res["fails"].append(dict(basef, what="compiling %r together failed: %s" % (order, text[-300:])))
